@@ -1,2 +1,5 @@
 import TransportVerif.Props.C02
-#print axioms TV.Props.C02.placeholder
+#print axioms TV.Props.C02.judged
+#print axioms TV.Props.C02.ext_valid
+#print axioms TV.Props.C02.ext_injective
+#print axioms TV.Props.C02.one_to_one_outbound
